@@ -119,7 +119,8 @@ def normalise_items(items):
                     "trait_name": trait_last(it.get("trait", "")), "unsafe": it["unsafe"], "const": it["const"],
                     "ret_self": it["ret_self"], "ret_mut": it["ret_mut"], "direct": it["direct"], "calls_ctor": it["calls_ctor"],
                     "has_unsafe": it["has_unsafe"], "in_type_impl": it["in_type_impl"], "field_vis": it.get("field_vis", ""),
-                    "for_mut_ref": st.strip().startswith("&") and "mut" in st.split()[:4]})
+                    "for_mut_ref": st.strip().startswith("&") and "mut" in st.split()[:4],
+                    "writes_field": bool(it.get("writes_field")), "mut_self_param": bool(it.get("mut_self_param"))})
     return out
 
 
